@@ -83,11 +83,11 @@ class Adaptor:
         if kind == "bloom":
             o = BloomFilter(size_bits=p[0], num_hashes=p[1], seed=seed)
             if table is not None:
-                o._hash = lambda item, i: table[idx(item) - 1][i] - 1
+                o._hash = lambda item, i: _inj(table[idx(item) - 1], i, p[0])
         elif kind == "cms":
             o = CountMinSketch(width=p[0], depth=p[1], seed=seed)
             if table is not None:
-                o._hash = lambda item, row: table[idx(item) - 1][row] - 1
+                o._hash = lambda item, row: _inj(table[idx(item) - 1], row, p[0])
         elif kind == "hll":
             prec = p[0].bit_length() - 1
             assert 1 << prec == p[0]
@@ -162,6 +162,14 @@ class Adaptor:
             return {"has": [bool(x in f) for x in U], "rep": rep,
                     "top": [[self.idx(e.item), int(e.count), int(e.error)] for e in f.top()]}
         return {"len": len(o), "sample": [self.idx(x) for x in o.sample()]}
+
+
+def _inj(row, i, size):
+    """Injected hash value (0-based) for hash index i; total: an index the model's table does not
+    define (only a modified implementation asks for it) gets some fixed in-range value."""
+    if 0 <= i < len(row):
+        return row[i] - 1
+    return (sum(row) + i) % size
 
 
 def _key(x):
